@@ -67,6 +67,14 @@ WriterRules(st, e) ==
         /\ Accepted(wc[i]) \in 0..Len(Offered(wc[i]))
         /\ Len(s) + Len(Offered(wc[i])) <= Len(ref2)
         /\ Offered(wc[i]) = SubSeq(ref2, Len(s) + 1, Len(s) + Len(Offered(wc[i])))>>,
+    (* C04 at the Decoder level: the bytes handed to the writer are exactly  *)
+    (* the reference expansion, each byte once and in order (the same       *)
+    (* predicate as C18.prefix; reported by the C04 check as well).         *)
+    <<"C04.output_exact",
+      \A i \in 1..nw :
+        LET s == SinkAfter(st.sink, wc, i - 1) IN
+        /\ Len(s) + Len(Offered(wc[i])) <= Len(ref2)
+        /\ Offered(wc[i]) = SubSeq(ref2, Len(s) + 1, Len(s) + Len(Offered(wc[i])))>>,
     (* C18: a writer fault ends the call and is what the call returns.      *)
     <<"C18.err_is_writers",
       /\ \A i \in 1..nw : WErr(wc[i]) # "" => i = nw
@@ -100,7 +108,9 @@ EOpRules(st, e) ==
       (* after a flush without writer fault everything has arrived (C04/C18) *)
       <<"C18.exactly_once",
         (~HasFault(e.wcalls)) =>
-          (e.err = "" /\ SinkAfter(st.sink, e.wcalls, Len(e.wcalls)) = st.ref)>> }
+          (e.err = "" /\ SinkAfter(st.sink, e.wcalls, Len(e.wcalls)) = st.ref)>>,
+      <<"C04.flush_complete",
+        (~HasFault(e.wcalls)) => SinkAfter(st.sink, e.wcalls, Len(e.wcalls)) = st.ref>> }
     [] e.op = "dec.reset" -> {}
     [] e.op = "panic"    -> { <<"C05.no_panic", FALSE>> }
     [] e.op = "livelock" -> { <<"C06.livelock", FALSE>> }
